@@ -13,11 +13,13 @@ Main results
     `sanitize_leading_digit_witness`  (what it does *not* guarantee);
   * `escape_literal_closed`     `"` ++ escape v ++ `"` is read back as exactly the literal token v;
   * `fragment_parses`           every constraint kind's fragment is a well-formed rule-body fragment;
-  * `C12_compile_total`         `compile_schema` never raises;
-  * `C12_wellformed_partial`    SchemaOK → ¬KF… → WellFormed (compileSchema …), both envelope settings,
-                                for the lenient name alphabet;
+  * `assignNames_spec`          the rule names of the fields are distinct, fresh w.r.t. the structural
+                                names, non-empty and made of name characters (fixes of F20 / F21);
+  * `C12_compile_total`         `compile_schema` always returns (the uniqueness loop terminates);
+  * `C12_wellformed_partial`    SchemaOK → WellFormed (compileSchema …), both envelope settings, every field
+                                name / schema name / chain — for the lenient name alphabet (F23);
   * `C12_contract_route`        the META.CONTRACT route compiles the schema rebuilt from the tokens;
-  * negative theorems on the witnesses of F20 F21 F22 F23 C12N1 C12N2.
+  * regression examples for the fixed findings F20 F21 F22 C12N1 C12N2; negative theorem F23.
 -/
 import Octave.Lemmas.ClassFrag
 import Octave.Lemmas.Strings
@@ -46,24 +48,35 @@ theorem gen_enumConst :
     Gen.enumWrapTpl = [.lit "(".toList, .var 0, .lit ")".toList] ∧
     Gen.constTpl = [.lit "\"".toList, .var 0, .lit "\"".toList] := by decide
 
+/-- `_compile_const` spells booleans and null the OCTAVE way -/
+theorem gen_constSpellings :
+    Gen.constTrue = "true".toList ∧ Gen.constFalse = "false".toList ∧ Gen.constNull = "null".toList := by decide
+
 theorem gen_regex :
     Gen.regexSimpleTpl = [.lit "[".toList, .var 0, .lit "]".toList, .var 1] ∧
     Gen.regexDefaultQuantifier = "+".toList ∧
     Gen.regexSimplePattern = "^\\[([^\\]]+)\\]([+*?]?)$".toList ∧
     Gen.regexLstrip = "^".toList ∧ Gen.regexRstrip = "$".toList ∧
     Gen.regexUnsupported = ["(?", "\\b", "\\B", "\\d", "\\w", "\\s", "\\D", "\\W", "\\S"].map String.toList ∧
-    Gen.regexDotFrom = ".".toList ∧ Gen.regexDotTo = "[^\\n]".toList ∧
-    Gen.regexDegenerate = ["+", "*", "?"].map String.toList := by decide
+    Gen.regexClassForbidden = "\\".toList ∧ Gen.regexDotPatterns = [".", ".+", ".*", ".?"].map String.toList ∧
+    Gen.regexDotFrom = ".".toList ∧ Gen.regexDotTo = "[^\\n]".toList := by decide
 
 /-- every constant fragment the compiler can emit is a well-formed rule-body fragment without references -/
 theorem gen_constant_fragments :
     ∀ f ∈ [Gen.unknownFragment, Gen.emptyChainFragment, Gen.requiredFragment, Gen.optionalFragment, Gen.typeDefault,
-           Gen.regexDegrade, Gen.regexDegenerateFragment, Gen.dirFragment, Gen.listFragment, Gen.rangeFragment,
+           Gen.regexDegrade, Gen.regexFinalFragment, Gen.dirFragment, Gen.listFragment, Gen.rangeFragment,
            Gen.maxLengthFragment, Gen.minLengthGeFragment, Gen.minLengthLtFragment, Gen.dateFragment,
-           Gen.schemaNoPattern] ++ Gen.typePatterns.map (·.2),
+           Gen.schemaNoPattern] ++ Gen.typePatterns.map (·.2) ++
+           Gen.regexDotPatterns.map (replaceAll Gen.regexDotFrom Gen.regexDotTo),
       fragCheck f = some [] := by decide +kernel
 
 theorem gen_iso8601_fragment : fragCheck Gen.iso8601Fragment = some [] := by decide +kernel
+
+/-- the uniqueness loop of `compile_schema` and the flattening of the schema name in the header comment -/
+theorem gen_unique :
+    Gen.schemaReservedRuleNames = ["ws", "field", "content", "document", "root"].map String.toList ∧
+    Gen.schemaUniqueSuffixStart = 2 ∧ Gen.schemaUniqueTpl = [.var 0, .lit "-".toList, .var 1] ∧
+    Gen.schemaHeaderNameReplacements = [("\r".toList, " ".toList), ("\n".toList, " ".toList)] := by decide
 
 theorem gen_schema_templates :
     Gen.schemaHeader = [[.lit "# GBNF Grammar for OCTAVE schema: ".toList, .var 0], [], [.lit "ws ::= [ \\t\\n]*".toList], []] ∧
@@ -84,7 +97,7 @@ theorem gen_fragment_texts :
     Gen.unknownFragment = "[^\\n]+".toList ∧ Gen.emptyChainFragment = "[^\\n]*".toList ∧
     Gen.typePatterns = [("STRING".toList, "[^\\n]+".toList), ("NUMBER".toList, "\"-\"? [0-9]+ (\".\" [0-9]+)?".toList),
       ("BOOLEAN".toList, "(\"true\" | \"false\")".toList), ("LIST".toList, "\"[\" [^\\]]* \"]\"".toList)] ∧
-    Gen.typeDefault = "[^\\n]+".toList ∧ Gen.regexDegrade = "[^\\n]+".toList ∧ Gen.regexDegenerateFragment = "[^\\n]+".toList ∧
+    Gen.typeDefault = "[^\\n]+".toList ∧ Gen.regexDegrade = "[^\\n]+".toList ∧ Gen.regexFinalFragment = "[^\\n]+".toList ∧
     Gen.dirFragment = "[a-zA-Z0-9_./-]+".toList ∧ Gen.listFragment = "\"[\" [^\\]]* \"]\"".toList ∧
     Gen.rangeFragment = "\"-\"? [0-9]+ (\".\" [0-9]+)?".toList ∧ Gen.maxLengthFragment = "[^\\n]*".toList ∧
     Gen.minLengthThreshold = 1 ∧ Gen.minLengthGeFragment = "[^\\n]+".toList ∧ Gen.minLengthLtFragment = "[^\\n]*".toList ∧
@@ -265,31 +278,25 @@ example : escapeLiteral "a\"b\\c\nd".toList = "a\\\"b\\\\c\nd".toList := by deci
 
 /-! ## fragments -/
 
+/-- `re.compile` accepts the pattern as far as the grammar needs it: a pattern of the class shape is not
+`[^]q` (Python rejects that as an unterminated character set; `RegexConstraint.__post_init__` compiles
+every pattern). -/
+def regexOK (pat : Str) : Bool :=
+  match simpleClassMatch (rstripChars Gen.regexRstrip (lstripChars Gen.regexLstrip pat)) with
+  | some (body, _) => body != ['^']
+  | none => true
+
 /-- what the schema reader guarantees about a constraint, as far as the grammar needs it -/
 def constraintOK : Constraint → Bool
   | .enum vals => !vals.isEmpty          -- `ENUM[...]` always has at least one member (`"".split(",")` is `[""]`)
-  | _ => true
-
-/-- **F22 class predicate** (negated): the REGEX pattern is *translated* rather than pasted — it degrades to
-the permissive fragment, or has the simple `[class]q` shape with a class body free of backslashes (and
-not just `^`), or is degenerate. -/
-def regexSafe (pat : Str) : Bool :=
-  let p := rstripChars Gen.regexRstrip (lstripChars Gen.regexLstrip pat)
-  if Gen.regexUnsupported.any (fun u => isInfixOf u p) then true
-  else match simpleClassMatch p with
-    | some (body, _) => !body.contains '\\' && body != ['^']
-    | none =>
-      let r := replaceAll Gen.regexDotFrom Gen.regexDotTo p
-      r.isEmpty || Gen.regexDegenerate.contains r
-
-def constraintSafe : Constraint → Bool
-  | .regex p => regexSafe p
+  | .regex p => regexOK p                -- the pattern is a valid Python regular expression
   | _ => true
 
 theorem constFrag {f : Str} (h : f ∈ [Gen.unknownFragment, Gen.emptyChainFragment, Gen.requiredFragment, Gen.optionalFragment, Gen.typeDefault,
-           Gen.regexDegrade, Gen.regexDegenerateFragment, Gen.dirFragment, Gen.listFragment, Gen.rangeFragment,
+           Gen.regexDegrade, Gen.regexFinalFragment, Gen.dirFragment, Gen.listFragment, Gen.rangeFragment,
            Gen.maxLengthFragment, Gen.minLengthGeFragment, Gen.minLengthLtFragment, Gen.dateFragment,
-           Gen.schemaNoPattern] ++ Gen.typePatterns.map (·.2)) : FragOK f [] :=
+           Gen.schemaNoPattern] ++ Gen.typePatterns.map (·.2) ++
+           Gen.regexDotPatterns.map (replaceAll Gen.regexDotFrom Gen.regexDotTo)) : FragOK f [] :=
   fragOK_of_check (gen_constant_fragments f h)
 
 theorem lookupStr_mem (k : Str) : ∀ (l : List (Str × Str)) (v : Str), lookupStr k l = some v → v ∈ l.map (·.2) := by
@@ -360,47 +367,68 @@ theorem simpleClassMatch_spec {p body q : Str} (h : simpleClassMatch p = some (b
       · cases h
   · cases h
 
-theorem regex_fragment (pat : Str) (hs : regexSafe pat = true) : FragOK (compileRegex pat) [] := by
-  unfold regexSafe at hs
+theorem isInfixOf_single (c : Char) : ∀ (s : Str), isInfixOf [c] s = s.contains c := by
+  intro s
+  induction s with
+  | nil => simp [isInfixOf]
+  | cons d r ih =>
+    simp only [isInfixOf, List.isPrefixOf, ih, List.contains_cons]
+    by_cases h : c = d
+    · subst h; simp
+    · have h1 : (c == d) = false := by simp [h]
+      have h2 : (d == c) = false := by simp [Ne.symm h]
+      simp [h1, h2]
+
+/-- the tail of `_compile_regex`: a dot pattern or the permissive fragment -/
+theorem regex_tail (p : Str) :
+    FragOK (if Gen.regexDotPatterns.contains p then replaceAll Gen.regexDotFrom Gen.regexDotTo p else Gen.regexFinalFragment) [] := by
+  split
+  · rename_i h
+    have hm : p ∈ Gen.regexDotPatterns := by simpa [List.contains_iff_mem] using h
+    exact constFrag (by simp only [List.mem_append, List.mem_map]; exact Or.inr ⟨p, hm, rfl⟩)
+  · exact constFrag (by simp)
+
+/-- **REGEX** (finding F22 fixed): whatever the pattern, `_compile_regex` emits a well-formed fragment — the
+permissive one, a `[class]q` whose body has no backslash, or `[^\n]` with an optional quantifier. -/
+theorem regex_fragment (pat : Str) (hs : regexOK pat = true) : FragOK (compileRegex pat) [] := by
+  unfold regexOK at hs
   unfold compileRegex
   simp only at hs ⊢
   split
   · exact constFrag (by simp)
-  · rename_i hu
-    simp only [hu, Bool.false_eq_true, if_false] at hs
-    split
+  · split
     · rename_i body q hm
       rw [hm] at hs
-      simp only [Bool.and_eq_true, Bool.not_eq_true', bne_iff_ne, ne_eq] at hs
+      simp only [bne_iff_ne, ne_eq] at hs
       obtain ⟨hb1, hb2, hq⟩ := simpleClassMatch_spec hm
-      have hplain : ClsPlain body := by
-        intro c hc
-        refine ⟨hb2 c hc, ?_⟩
-        intro h; subst h
-        have := hs.1
-        simp [List.contains_iff_mem] at this
-        exact this hc
-      obtain ⟨htpl, hdq, _⟩ := gen_regex
-      rw [htpl, hdq]
-      rcases hq with hq | ⟨c, hq, hc⟩
-      · subst hq
-        have := fragOK_class body '+' hplain hb1 hs.2 (Or.inl rfl)
-        simpa [render] using this
-      · subst hq
-        have := fragOK_class body c hplain hb1 hs.2 hc
-        simpa [render] using this
-    · rename_i hm
-      rw [hm] at hs
-      simp only at hs
-      simp only [hs, if_true]
-      exact constFrag (by simp)
+      split
+      · rename_i hforb
+        have hplain : ClsPlain body := by
+          intro c hc
+          refine ⟨hb2 c hc, ?_⟩
+          intro h; subst h
+          rw [gen_regex.2.2.2.2.2.2.1] at hforb
+          have e : "\\".toList = ['\\'] := by decide
+          rw [e, isInfixOf_single] at hforb
+          simp [List.contains_iff_mem] at hforb
+          exact hforb hc
+        obtain ⟨htpl, hdq, _⟩ := gen_regex
+        rw [htpl, hdq]
+        rcases hq with hq | ⟨c, hq, hc⟩
+        · subst hq
+          have := fragOK_class body '+' hplain hb1 hs (Or.inl rfl)
+          simpa [render] using this
+        · subst hq
+          have := fragOK_class body c hplain hb1 hs hc
+          simpa [render] using this
+      · exact regex_tail _
+    · exact regex_tail _
 
 /-- **fragment_parses.**  The fragment compiled for any single constraint of any of the kinds
 (REQ OPT ENUM CONST TYPE REGEX DIR APPEND_ONLY RANGE MAX_LENGTH MIN_LENGTH DATE ISO8601, and the permissive
 fragment for anything else) is a well-formed piece of a rule body: it lexes from between tokens to
-between tokens, contains no reference, leaves a non-empty alternative and no empty alternative —
-provided an ENUM has a member and a REGEX is translated rather than pasted (finding F22). -/
-theorem fragment_parses (c : Constraint) (hok : constraintOK c = true) (hsafe : constraintSafe c = true) :
+between tokens, contains no reference, leaves a non-empty alternative and no empty alternative. -/
+theorem fragment_parses (c : Constraint) (hok : constraintOK c = true) :
     ∃ frag, compileConstraint c = some frag ∧ FragOK frag [] := by
   obtain ⟨hq, hj, hw, hct⟩ := gen_enumConst
   cases c with
@@ -425,12 +453,12 @@ theorem fragment_parses (c : Constraint) (hok : constraintOK c = true) (hsafe : 
     | none => exact constFrag (by simp)
     | some v => exact constFrag (by simp [lookupStr_mem t _ v h])
   | regex p =>
-    exact ⟨compileRegex p, by simp [compileConstraint, gen_dispatch, lookupMethod, Constraint.kind, runMethod], regex_fragment p hsafe⟩
+    exact ⟨compileRegex p, by simp [compileConstraint, gen_dispatch, lookupMethod, Constraint.kind, runMethod], regex_fragment p hok⟩
   | const v =>
     refine ⟨compileConst v, by simp [compileConstraint, gen_dispatch, lookupMethod, Constraint.kind, runMethod], ?_⟩
     unfold compileConst
     rw [hct, escapeLiteral_eq]
-    have := fragOK_const v
+    have := fragOK_const (constText v)
     simpa [render] using this
   | enum vals =>
     refine ⟨compileEnum vals, by simp [compileConstraint, gen_dispatch, lookupMethod, Constraint.kind, runMethod], ?_⟩
@@ -481,96 +509,206 @@ theorem deciding_mem (cs : List Constraint) (c : Constraint) (h : deciding cs = 
     | none => rw [hp] at h; simp at h; subst h; simp
     | some c' => rw [hp] at h; simp at h; subst h; exact pickByPriority_mem _ _ _ hp
 
-/-! ## known-finding class predicates (decidable, over the *input*) and what the reader guarantees -/
+/-! ## what the reader guarantees -/
 
-/-- what the schema reader guarantees: every ENUM has at least one member -/
+/-- every ENUM has at least one member and every REGEX pattern is a valid Python regular expression -/
 def SchemaOK (fields : List Field) : Bool :=
   fields.all fun f => match f.chain with
     | some cs => cs.all constraintOK
     | none => true
 
-def structuralNames : List Str := ["ws", "field", "content", "document", "root"].map String.toList
+/-! ## rule names (fixes of F20 and F21) -/
 
-/-- **F20**: a field whose rule name equals a structural rule name -/
-def KF_structural (fields : List Field) : Bool := fields.any fun f => structuralNames.contains f.ruleName
-/-- **F21**: two fields with the same rule name (`_sanitize_rule_name` is not injective) -/
-def KF_collision (fields : List Field) : Prop := ¬ (fields.map Field.ruleName).Nodup
-/-- **F22**: a field decided by a REGEX whose pattern is pasted rather than translated -/
-def chainSafe (f : Field) : Bool :=
-  match f.chain with
-  | some cs => (match deciding cs with
-    | some c => constraintSafe c
-    | none => true)
-  | none => true
-def KF_regexPaste (fields : List Field) : Bool := fields.any fun f => !chainSafe f
-/-- **C12N1**: a field name with a quote or a backslash (pasted unescaped into the rule's literal) -/
-def KF_fieldNameUnescaped (fields : List Field) : Bool := fields.any fun f => f.name.contains '"' || f.name.contains '\\'
-/-- **C12N2**: a schema name with a line break (header comment) or, with envelope, a quote or backslash -/
-def KF_schemaNameUnescaped (name upper : Str) (envelope : Bool) : Bool :=
-  name.contains '\n' || name.contains '\r' || (envelope && (upper.contains '"' || upper.contains '\\'))
+def allStructural : List Str :=
+  ["ws", "field", "content", "document", "root", "envelope-start", "envelope-end", "meta-block", "meta-content",
+   "meta-field"].map String.toList
+
+/-- a usable rule name: non-empty, made of name characters, different from every structural rule name -/
+def GoodName (n : Str) : Prop := n ≠ [] ∧ (∀ c ∈ n, isWordChar true c = true) ∧ n ∉ allStructural
+
+/-- what `_sanitize_rule_name` delivers: non-empty, name characters, no dash -/
+def BaseName (b : Str) : Prop := b ≠ [] ∧ ∀ c ∈ b, isWordChar true c = true ∧ c ≠ '-'
+
+theorem baseName_sanitize (lowered : Str) : BaseName (sanitize lowered) :=
+  ⟨sanitize_nonempty lowered, sanitize_charset lowered⟩
+
+def afterFirstDash (s : Str) : Str := (s.dropWhile (· != '-')).drop 1
+
+theorem afterFirstDash_append (b ds : Str) (hb : ∀ c ∈ b, c ≠ '-') : afterFirstDash (b ++ '-' :: ds) = ds := by
+  unfold afterFirstDash
+  induction b with
+  | nil => simp
+  | cons c r ih =>
+    have hc : c ≠ '-' := hb c (by simp)
+    simp only [List.cons_append, List.dropWhile_cons, bne_iff_ne, ne_eq, hc, not_false_eq_true, decide_true, if_true]
+    exact ih (fun d hd => hb d (by simp [hd]))
+
+theorem uniqueCandidate_eq (base : Str) (k : Nat) : uniqueCandidate base k = base ++ '-' :: Nat.toDigits 10 k := by
+  unfold uniqueCandidate
+  rw [gen_unique.2.2.1]
+  simp [render]
+
+/-- a candidate name (the base or base-k) is good as soon as it is not one of the five reserved names -/
+theorem candidate_good (base : Str) (hb : BaseName base) (n : Str) (hn : n = base ∨ ∃ k, n = uniqueCandidate base k)
+    (hres : Gen.schemaReservedRuleNames.contains n = false) : GoodName n := by
+  have hdigits : ∀ k, ∀ c ∈ Nat.toDigits 10 k, isDigit c = true := by
+    intro k
+    apply toDigits_forall (fun c => isDigit c = true) 10 (by decide)
+    intro d hd
+    have : ∀ j : Fin 10, isDigit (Nat.digitChar j.val) = true := by decide
+    exact this ⟨d, hd⟩
+  have hres' : n ∉ ["ws", "field", "content", "document", "root"].map String.toList := by
+    rw [gen_unique.1] at hres
+    intro h
+    simp [List.contains_iff_mem] at hres
+    simp at h
+    rcases h with h | h | h | h | h <;> simp [h] at hres
+  have hdashed : ∀ y ∈ allStructural, y ∉ ["ws", "field", "content", "document", "root"].map String.toList →
+      '-' ∈ y ∧ ¬ (∀ c ∈ afterFirstDash y, isDigit c = true) := by decide
+  rcases hn with hn | ⟨k, hn⟩
+  · subst hn
+    refine ⟨hb.1, fun c hc => (hb.2 c hc).1, ?_⟩
+    intro hmem
+    by_cases h5 : n ∈ ["ws", "field", "content", "document", "root"].map String.toList
+    · exact hres' h5
+    · exact (hb.2 '-' (hdashed n hmem h5).1).2 rfl
+  · rw [uniqueCandidate_eq] at hn
+    subst hn
+    refine ⟨by simp, ?_, ?_⟩
+    · intro c hc
+      rcases List.mem_append.mp hc with h | h
+      · exact (hb.2 c h).1
+      · rcases List.mem_cons.mp h with h1 | h1
+        · subst h1; decide
+        · have := hdigits k c h1
+          simp [isWordChar, this]
+    · intro hmem
+      by_cases h5 : (base ++ '-' :: Nat.toDigits 10 k) ∈ ["ws", "field", "content", "document", "root"].map String.toList
+      · exact hres' h5
+      · have := (hdashed _ hmem h5).2
+        rw [afterFirstDash_append base _ (fun c hc => (hb.2 c hc).2)] at this
+        exact this (hdigits k)
+
+theorem uniqueLoop_spec (used : List Str) (base : Str) : ∀ (f suffix : Nat) (cur n : Str),
+    uniqueLoop used base f suffix cur = some n →
+    nameTaken used n = false ∧ (n = cur ∨ ∃ k, n = uniqueCandidate base k) := by
+  intro f
+  induction f with
+  | zero =>
+    intro suffix cur n h
+    simp only [uniqueLoop] at h
+    split at h
+    · cases h
+    · rename_i ht; cases h; exact ⟨by simpa using ht, Or.inl rfl⟩
+  | succ f ih =>
+    intro suffix cur n h
+    simp only [uniqueLoop] at h
+    split at h
+    · obtain ⟨h1, h2⟩ := ih _ _ n h
+      refine ⟨h1, Or.inr ?_⟩
+      rcases h2 with h2 | h2
+      · exact ⟨suffix, h2⟩
+      · exact h2
+    · rename_i ht; cases h; exact ⟨by simpa using ht, Or.inl rfl⟩
+
+theorem uniqueName_spec (used : List Str) (base n : Str) (hb : BaseName base) (h : uniqueName used base = some n) :
+    n ∉ used ∧ GoodName n := by
+  obtain ⟨h1, h2⟩ := uniqueLoop_spec used base _ _ base n h
+  simp only [nameTaken, Bool.or_eq_false_iff] at h1
+  exact ⟨by simpa [List.contains_iff_mem] using h1.1, candidate_good base hb n h2 h1.2⟩
+
+/-- **assignNames_spec** (F20 / F21 fixed).  The rule names `compile_schema` gives to the fields are pairwise
+distinct, non-empty, made of name characters and different from all ten structural rule names — whatever
+the field names are. -/
+theorem assignNames_spec : ∀ (bases used names : List Str), (∀ b ∈ bases, BaseName b) →
+    used.Nodup → (∀ u ∈ used, GoodName u) → assignNames bases used = some names →
+    names.Nodup ∧ (∀ n ∈ names, GoodName n) ∧ names.length = used.length + bases.length := by
+  intro bases
+  induction bases with
+  | nil =>
+    intro used names _ hnd hg h
+    simp only [assignNames, Option.some.injEq] at h
+    subst h
+    exact ⟨hnd, hg, by simp⟩
+  | cons b r ih =>
+    intro used names hb hnd hg h
+    simp only [assignNames] at h
+    split at h
+    · rename_i n hn
+      obtain ⟨hfresh, hgood⟩ := uniqueName_spec used b n (hb b (by simp)) hn
+      have hnd' : (used ++ [n]).Nodup := by
+        rw [List.nodup_append]
+        refine ⟨hnd, by simp, ?_⟩
+        intro x hx y hy hxy
+        simp at hy; subst hy; subst hxy
+        exact hfresh hx
+      have hg' : ∀ u ∈ used ++ [n], GoodName u := by
+        intro u hu
+        rcases List.mem_append.mp hu with h1 | h1
+        · exact hg u h1
+        · simp at h1; subst h1; exact hgood
+      obtain ⟨r1, r2, r3⟩ := ih (used ++ [n]) names (fun x hx => hb x (by simp [hx])) hnd' hg' h
+      exact ⟨r1, r2, by simp at r3 ⊢; omega⟩
+    · cases h
 
 /-! ## lines -/
 
-theorem fieldLine_ok (f : Field) (hok : (match f.chain with | some cs => cs.all constraintOK | none => true) = true)
-    (hsafe : chainSafe f = true) (hname : (f.name.contains '"' || f.name.contains '\\') = false) :
-    ∃ l, fieldLine f = some l ∧ LineOK l [f.ruleName] ["ws".toList] := by
+theorem fieldLine_ok (f : Field) (rn : Str) (hrn : rn ≠ [] ∧ ∀ c ∈ rn, isWordChar true c = true)
+    (hok : (match f.chain with | some cs => cs.all constraintOK | none => true) = true) :
+    ∃ l, fieldLine f rn = some l ∧ LineOK l [rn] ["ws".toList] := by
   have hpat : ∃ pat, fieldPattern f = some pat ∧ FragOK pat [] := by
     unfold fieldPattern
-    unfold chainSafe at hsafe
     cases hch : f.chain with
     | none => exact ⟨Gen.schemaNoPattern, rfl, constFrag (by simp)⟩
     | some cs =>
-      rw [hch] at hok hsafe
-      simp only at hok hsafe ⊢
+      rw [hch] at hok
+      simp only at hok ⊢
       unfold compileChain
       cases hd : deciding cs with
       | none => exact ⟨Gen.emptyChainFragment, rfl, constFrag (by simp)⟩
       | some c =>
-        rw [hd] at hsafe
         have hcok : constraintOK c = true := List.all_eq_true.mp hok c (deciding_mem cs c hd)
-        exact fragment_parses c hcok hsafe
+        exact fragment_parses c hcok
   obtain ⟨pat, hp, hfrag⟩ := hpat
-  refine ⟨render Gen.schemaFieldRuleTpl [f.ruleName, f.name, pat], by simp [fieldLine, hp], ?_⟩
-  rw [gen_schema_templates.2.1]
-  have hn : ∀ c ∈ f.name, c ≠ '"' ∧ c ≠ '\\' := by
-    intro c hc
-    simp only [Bool.or_eq_false_iff] at hname
-    constructor
-    · intro h; subst h; have := hname.1; simp [List.contains_iff_mem] at this; exact this hc
-    · intro h; subst h; have := hname.2; simp [List.contains_iff_mem] at this; exact this hc
-  have := lineOK_field f.ruleName f.name pat [] (sanitize_nonempty f.lowered)
-    (fun c hc => (sanitize_charset f.lowered c hc).1) hn hfrag
-  simpa [render, Field.ruleName] using this
+  refine ⟨render Gen.schemaFieldRuleTpl [rn, escapeLiteral f.name, pat], by simp [fieldLine, hp], ?_⟩
+  rw [gen_schema_templates.2.1, escapeLiteral_eq]
+  have := lineOK_field rn (f.name.flatMap esc1) f.name pat [] hrn.1 hrn.2 (litText_esc f.name) hfrag
+  simpa [render] using this
 
-theorem fieldLines_ok : ∀ (fields : List Field), SchemaOK fields = true → KF_regexPaste fields = false →
-    KF_fieldNameUnescaped fields = false →
-    ∃ xs : List (Str × List Str × List Str), fieldLines fields = some (xs.map (·.1)) ∧
+theorem fieldLines_ok : ∀ (fields : List Field) (names : List Str), SchemaOK fields = true →
+    names.length = fields.length → (∀ n ∈ names, n ≠ [] ∧ ∀ c ∈ n, isWordChar true c = true) →
+    ∃ xs : List (Str × List Str × List Str), fieldLines fields names = some (xs.map (·.1)) ∧
       (∀ x ∈ xs, LineOK x.1 x.2.1 x.2.2) ∧
-      xs.flatMap (fun x => x.2.1.reverse) = fields.map Field.ruleName ∧
+      xs.flatMap (fun x => x.2.1.reverse) = names ∧
       (∀ r ∈ xs.flatMap (fun x => x.2.2.reverse), r = "ws".toList) := by
   intro fields
   induction fields with
-  | nil => intro _ _ _; exact ⟨[], rfl, by simp, rfl, by simp⟩
+  | nil =>
+    intro names _ hlen _
+    have : names = [] := by cases names <;> simp at hlen ⊢
+    subst this
+    exact ⟨[], rfl, by simp, rfl, by simp⟩
   | cons f r ih =>
-    intro hok h22 hn1
-    simp only [SchemaOK, List.all_cons, Bool.and_eq_true] at hok
-    simp only [KF_regexPaste, List.any_cons, Bool.or_eq_false_iff, Bool.not_eq_false'] at h22
-    simp only [KF_fieldNameUnescaped, List.any_cons, Bool.or_eq_false_iff] at hn1
-    obtain ⟨l, hl, hlo⟩ := fieldLine_ok f hok.1 h22.1 (by rw [hn1.1.1, hn1.1.2]; rfl)
-    obtain ⟨xs, hxs, hall, hnames, hrefs⟩ := ih hok.2 h22.2 hn1.2
-    refine ⟨(l, [f.ruleName], ["ws".toList]) :: xs, ?_, ?_, ?_, ?_⟩
-    · simp [fieldLines, hl, hxs]
-    · intro x hx
-      rcases List.mem_cons.mp hx with h | h
-      · subst h; exact hlo
-      · exact hall x h
-    · simp [hnames]
-    · intro r hr
-      simp only [List.flatMap_cons, List.reverse_cons, List.reverse_nil, List.nil_append, List.mem_append,
-        List.mem_singleton] at hr
-      rcases hr with h | h
-      · exact h
-      · exact hrefs r h
+    intro names hok hlen hgood
+    cases names with
+    | nil => simp at hlen
+    | cons n ns =>
+      simp only [SchemaOK, List.all_cons, Bool.and_eq_true] at hok
+      obtain ⟨l, hl, hlo⟩ := fieldLine_ok f n (hgood n (by simp)) hok.1
+      obtain ⟨xs, hxs, hall, hnames, hrefs⟩ := ih ns hok.2 (by simpa using hlen) (fun x hx => hgood x (by simp [hx]))
+      refine ⟨(l, [n], ["ws".toList]) :: xs, ?_, ?_, ?_, ?_⟩
+      · simp [fieldLines, hl, hxs]
+      · intro x hx
+        rcases List.mem_cons.mp hx with h | h
+        · subst h; exact hlo
+        · exact hall x h
+      · simp [hnames]
+      · intro r hr
+        simp only [List.flatMap_cons, List.reverse_cons, List.reverse_nil, List.nil_append, List.mem_append,
+          List.mem_singleton] at hr
+        rcases hr with h | h
+        · exact h
+        · exact hrefs r h
 
 theorem lineCheck_blank : lineCheck [] = some ([], []) := by decide
 theorem lineCheck_ws : lineCheck "ws ::= [ \\t\\n]*".toList = some (["ws".toList], []) := by decide
@@ -585,20 +723,36 @@ theorem lineCheck_documentEnv : lineCheck "document ::= envelope-start ws meta-b
 theorem lineCheck_document : lineCheck "document ::= content".toList = some (["document".toList], ["content".toList]) := by decide
 theorem lineCheck_root : lineCheck "root ::= document".toList = some (["root".toList], ["document".toList]) := by decide
 
-theorem header_ok (name : Str) (h : (name.contains '\n' || name.contains '\r') = false) :
-    LineOK ("# GBNF Grammar for OCTAVE schema: ".toList ++ name) [] [] := by
-  have : "# GBNF Grammar for OCTAVE schema: ".toList ++ name = '#' :: (" GBNF Grammar for OCTAVE schema: ".toList ++ name) := by
-    simp
+theorem replaceAll_single_removes (c : Char) (new s : Str) (hnew : ∀ x ∈ new, x ≠ c) : ∀ x ∈ replaceAll [c] new s, x ≠ c := by
+  rw [replaceAll_single]
+  intro x hx
+  obtain ⟨d, _, hxd⟩ := List.mem_flatMap.mp hx
+  split at hxd
+  · exact hnew x hxd
+  · rename_i hdc; simp at hxd; subst hxd; exact hdc
+
+/-- the header comment stays on one line whatever the schema name is (C12N2 fixed) -/
+theorem header_ok (name : Str) :
+    LineOK ("# GBNF Grammar for OCTAVE schema: ".toList ++ headerName name) [] [] := by
+  have : "# GBNF Grammar for OCTAVE schema: ".toList ++ headerName name =
+      '#' :: (" GBNF Grammar for OCTAVE schema: ".toList ++ headerName name) := by simp
   rw [this]
   apply lineOK_comment
   intro c hc
   have hconst : ∀ c ∈ " GBNF Grammar for OCTAVE schema: ".toList, c ≠ '\n' ∧ c ≠ '\r' := by decide
   rcases List.mem_append.mp hc with h1 | h1
   · exact hconst c h1
-  · simp only [Bool.or_eq_false_iff] at h
+  · unfold headerName at h1
+    rw [gen_unique.2.2.2] at h1
+    simp only [List.foldl_cons, List.foldl_nil] at h1
+    have e1 : "\r".toList = ['\r'] := by decide
+    have e2 : "\n".toList = ['\n'] := by decide
+    have e3 : " ".toList = [' '] := by decide
+    rw [e1, e2, e3] at h1
     constructor
-    · intro hh; subst hh; have := h.1; simp [List.contains_iff_mem] at this; exact this h1
-    · intro hh; subst hh; have := h.2; simp [List.contains_iff_mem] at this; exact this h1
+    · exact replaceAll_single_removes '\n' [' '] _ (by decide) c h1
+    · refine replaceAll_forall (fun x => x ≠ '\r') _ _ _ (by decide) ?_ c h1
+      exact replaceAll_single_removes '\r' [' '] _ (by decide)
 
 theorem fieldRefs_ok (names : List Str) (hne : names ≠ [])
     (hw : ∀ r ∈ names, r ≠ [] ∧ ∀ c ∈ r, isWordChar true c = true) :
@@ -607,15 +761,12 @@ theorem fieldRefs_ok (names : List Str) (hne : names ≠ [])
     simp [lexStep, lexAction, lexTop, isWordChar, isLower, isUpper, isDigit])
   simpa using this
 
-theorem envelopeStart_ok (upper : Str) (h : (upper.contains '"' || upper.contains '\\') = false) :
-    LineOK ("envelope-start ::= \"===".toList ++ upper ++ "===\"".toList) ["envelope-start".toList] [] := by
-  have hu : ∀ c ∈ upper, c ≠ '"' ∧ c ≠ '\\' := by
-    intro c hc
-    simp only [Bool.or_eq_false_iff] at h
-    constructor
-    · intro hh; subst hh; have := h.1; simp [List.contains_iff_mem] at this; exact this hc
-    · intro hh; subst hh; have := h.2; simp [List.contains_iff_mem] at this; exact this hc
-  exact lineOK_pastedLiteral "envelope-start".toList "envelope-start ::= \"===".toList "===".toList upper "===\"".toList hu
+/-- the `envelope-start` literal is closed whatever the schema name is (C12N2 fixed) -/
+theorem envelopeStart_ok (upper : Str) :
+    LineOK ("envelope-start ::= \"===".toList ++ escapeLiteral upper ++ "===\"".toList) ["envelope-start".toList] [] := by
+  rw [escapeLiteral_eq]
+  exact lineOK_pastedLiteral "envelope-start".toList "envelope-start ::= \"===".toList "===".toList (upper.flatMap esc1) upper
+    "===\"".toList (litText_esc upper)
     (fun toks => by simp [lexStep, lexAction, lexTop, isWordChar, isLower, isUpper, isDigit])
     (fun acc toks => by simp [lexStep, lexAction, lexTop, isWordChar, isLower, isUpper, isDigit])
 
@@ -633,419 +784,5 @@ def tailSpecs : List LineSpec := [blankSpec, ("root ::= document".toList, ["root
 
 theorem blank_ok : LineOK blankSpec.1 blankSpec.2.1 blankSpec.2.2 := lineOK_of_check lineCheck_blank
 
-theorem assemble (name : Str) (hname : (name.contains '\n' || name.contains '\r') = false)
-    (xsF xsC xsD : List LineSpec)
-    (hF : ∀ x ∈ xsF, LineOK x.1 x.2.1 x.2.2) (hC : ∀ x ∈ xsC, LineOK x.1 x.2.1 x.2.2) (hD : ∀ x ∈ xsD, LineOK x.1 x.2.1 x.2.2)
-    (hnodup : (["ws".toList] ++ LineSpec.names xsF ++ (LineSpec.names xsC ++ LineSpec.names xsD ++ ["root".toList])).Nodup)
-    (hrefsF : ∀ r ∈ LineSpec.refs xsF, r = "ws".toList)
-    (hrefsC : ∀ r ∈ LineSpec.refs xsC, r ∈ ["ws".toList] ++ LineSpec.names xsF ++ LineSpec.names xsC)
-    (hrefsD : ∀ r ∈ LineSpec.refs xsD, r ∈ ["ws".toList] ++ LineSpec.names xsC ++ LineSpec.names xsD)
-    (hdoc : "document".toList ∈ LineSpec.names xsD) :
-    WellFormed true (List.intercalate ['\n']
-      ((headSpecs name ++ xsF ++ [blankSpec] ++ xsC ++ [blankSpec] ++ xsD ++ tailSpecs).map (·.1))) := by
-  have hnames : LineSpec.names (headSpecs name ++ xsF ++ [blankSpec] ++ xsC ++ [blankSpec] ++ xsD ++ tailSpecs) =
-      ["ws".toList] ++ LineSpec.names xsF ++ (LineSpec.names xsC ++ LineSpec.names xsD ++ ["root".toList]) := by
-    simp [LineSpec.names, headSpecs, tailSpecs, blankSpec, List.flatMap_append]
-  have hrefs : LineSpec.refs (headSpecs name ++ xsF ++ [blankSpec] ++ xsC ++ [blankSpec] ++ xsD ++ tailSpecs) =
-      LineSpec.refs xsF ++ LineSpec.refs xsC ++ LineSpec.refs xsD ++ ["document".toList] := by
-    simp [LineSpec.refs, headSpecs, tailSpecs, blankSpec, List.flatMap_append]
-  apply wellFormed_of_lines'
-  · simp [headSpecs]
-  · intro x hx
-    simp only [List.mem_append, List.mem_singleton] at hx
-    rcases hx with (((((h | h) | h) | h) | h) | h) | h
-    · simp only [headSpecs, List.mem_cons, List.not_mem_nil, or_false] at h
-      rcases h with h | h | h | h
-      · subst h; exact header_ok name hname
-      · subst h; exact blank_ok
-      · subst h; exact lineOK_of_check lineCheck_ws
-      · subst h; exact blank_ok
-    · exact hF x h
-    · subst h; exact blank_ok
-    · exact hC x h
-    · subst h; exact blank_ok
-    · exact hD x h
-    · simp only [tailSpecs, List.mem_cons, List.not_mem_nil, or_false] at h
-      rcases h with h | h
-      · subst h; exact blank_ok
-      · subst h; exact lineOK_of_check lineCheck_root
-  · show rootName ∈ LineSpec.names _
-    rw [hnames]; simp [rootName]
-  · intro r hr
-    show r ∈ LineSpec.names _
-    have hr' : r ∈ LineSpec.refs (headSpecs name ++ xsF ++ [blankSpec] ++ xsC ++ [blankSpec] ++ xsD ++ tailSpecs) := hr
-    rw [hrefs] at hr'
-    rw [hnames]
-    simp only [List.mem_append, List.mem_singleton] at hr' ⊢
-    rcases hr' with ((h | h) | h) | h
-    · left; left; exact hrefsF r h
-    · have := hrefsC r h
-      simp only [List.mem_append, List.mem_singleton] at this
-      rcases this with (h1 | h1) | h1
-      · left; left; exact h1
-      · left; right; exact h1
-      · right; left; left; exact h1
-    · have := hrefsD r h
-      simp only [List.mem_append, List.mem_singleton] at this
-      rcases this with (h1 | h1) | h1
-      · left; left; exact h1
-      · right; left; left; exact h1
-      · right; left; right; exact h1
-    · subst h; right; left; right; exact hdoc
-  · show (LineSpec.names _).Nodup
-    rw [hnames]; exact hnodup
-
-def allStructural : List Str :=
-  ["ws", "field", "content", "document", "root", "envelope-start", "envelope-end", "meta-block", "meta-content",
-   "meta-field"].map String.toList
-
-theorem ruleName_not_structural (fields : List Field) (h20 : KF_structural fields = false) :
-    ∀ x ∈ fields.map Field.ruleName, x ∉ allStructural := by
-  intro x hx hmem
-  obtain ⟨f, hf, hfx⟩ := List.mem_map.mp hx
-  subst hfx
-  have hnot : structuralNames.contains f.ruleName = false := by
-    simp only [KF_structural, List.any_eq_false] at h20
-    simpa using h20 f hf
-  have hdash : ∀ y ∈ allStructural, y ∉ structuralNames → '-' ∈ y := by decide
-  by_cases hs : f.ruleName ∈ structuralNames
-  · simp [List.contains_iff_mem, hs] at hnot
-  · have := hdash _ hmem hs
-    exact (sanitize_charset f.lowered '-' this).2 rfl
-
-def contentSpecs (F : List Str) : List LineSpec :=
-  if F.isEmpty then [("content ::= [^\\n]*".toList, ["content".toList], [])]
-  else [("field ::= (".toList ++ List.intercalate " | ".toList F ++ ")".toList, ["field".toList], F.reverse),
-        ("content ::= (field ws)*".toList, ["content".toList], ["ws".toList, "field".toList])]
-
-def docSpecs (upper : Str) (envelope : Bool) : List LineSpec :=
-  if envelope then
-    [("envelope-start ::= \"===".toList ++ upper ++ "===\"".toList, ["envelope-start".toList], []),
-     ("envelope-end ::= \"===END===\"".toList, ["envelope-end".toList], []), blankSpec,
-     ("meta-block ::= \"META:\" ws meta-content".toList, ["meta-block".toList], ["meta-content".toList, "ws".toList]),
-     ("meta-content ::= (meta-field ws)*".toList, ["meta-content".toList], ["ws".toList, "meta-field".toList]),
-     ("meta-field ::= [A-Z_]+ \"::\" ws [^\\n]+".toList, ["meta-field".toList], ["ws".toList]), blankSpec,
-     ("document ::= envelope-start ws meta-block ws content ws envelope-end".toList, ["document".toList],
-      ["envelope-end", "ws", "content", "ws", "meta-block", "ws", "envelope-start"].map String.toList)]
-  else [("document ::= content".toList, ["document".toList], ["content".toList])]
-
-theorem contentSpecs_ok (F : List Str) (hw : ∀ r ∈ F, r ≠ [] ∧ ∀ c ∈ r, isWordChar true c = true) :
-    ∀ x ∈ contentSpecs F, LineOK x.1 x.2.1 x.2.2 := by
-  intro x hx
-  unfold contentSpecs at hx
-  split at hx
-  · simp only [List.mem_singleton] at hx; subst hx; exact lineOK_of_check lineCheck_content0
-  · rename_i hne
-    simp only [List.mem_cons, List.not_mem_nil, or_false] at hx
-    rcases hx with h | h
-    · subst h; exact fieldRefs_ok F (by intro h; simp [h] at hne) hw
-    · subst h; exact lineOK_of_check lineCheck_content1
-
-theorem docSpecs_ok (upper : Str) (envelope : Bool)
-    (h : (envelope && (upper.contains '"' || upper.contains '\\')) = false) :
-    ∀ x ∈ docSpecs upper envelope, LineOK x.1 x.2.1 x.2.2 := by
-  intro x hx
-  unfold docSpecs at hx
-  cases envelope with
-  | false =>
-    simp only [Bool.false_eq_true, if_false, List.mem_singleton] at hx
-    subst hx; exact lineOK_of_check lineCheck_document
-  | true =>
-    simp only [if_true, List.mem_cons, List.not_mem_nil, or_false] at hx
-    simp only [Bool.true_and] at h
-    rcases hx with h1 | h1 | h1 | h1 | h1 | h1 | h1 | h1
-    · subst h1; exact envelopeStart_ok upper h
-    · subst h1; exact lineOK_of_check lineCheck_envEnd
-    · subst h1; exact blank_ok
-    · subst h1; exact lineOK_of_check lineCheck_metaBlock
-    · subst h1; exact lineOK_of_check lineCheck_metaContent
-    · subst h1; exact lineOK_of_check lineCheck_metaField
-    · subst h1; exact blank_ok
-    · subst h1; exact lineOK_of_check lineCheck_documentEnv
-
-/-- the text `compile_schema` returns, line by line -/
-theorem compileSchema_lines (name upper : Str) (fields : List Field) (envelope : Bool) (xsF : List LineSpec)
-    (hfl : fieldLines fields = some (xsF.map (·.1))) :
-    compileSchema name upper fields envelope = some (List.intercalate ['\n']
-      ((headSpecs name ++ xsF ++ [blankSpec] ++ contentSpecs (fields.map Field.ruleName) ++ [blankSpec] ++
-        docSpecs upper envelope ++ tailSpecs).map (·.1))) := by
-  obtain ⟨h1, _, h3, h4, h5, h6, h7, h8, h9, h10, h11⟩ := gen_schema_templates
-  unfold compileSchema schemaLines contentLines documentLines
-  rw [hfl, h1, h3, h4, h5, h6, h7, h8, h9, h10, h11]
-  have e : "\n".toList = ['\n'] := by decide
-  rw [e]
-  simp only [Option.map_some]
-  congr 2
-  cases envelope <;> cases hF : (fields.map Field.ruleName).isEmpty <;>
-    simp [headSpecs, tailSpecs, blankSpec, contentSpecs, docSpecs, render, hF]
-
-theorem names_contentSpecs (F : List Str) :
-    LineSpec.names (contentSpecs F) = if F.isEmpty then ["content".toList] else ["field".toList, "content".toList] := by
-  unfold contentSpecs LineSpec.names
-  split <;> simp
-
-theorem refs_contentSpecs (F : List Str) :
-    LineSpec.refs (contentSpecs F) = if F.isEmpty then [] else F ++ ["field".toList, "ws".toList] := by
-  unfold contentSpecs LineSpec.refs
-  split <;> simp
-
-theorem names_docSpecs (upper : Str) (envelope : Bool) :
-    LineSpec.names (docSpecs upper envelope) =
-      if envelope then ["envelope-start", "envelope-end", "meta-block", "meta-content", "meta-field", "document"].map String.toList
-      else ["document".toList] := by
-  unfold docSpecs LineSpec.names
-  split <;> simp [blankSpec]
-
-theorem refs_docSpecs (upper : Str) (envelope : Bool) :
-    LineSpec.refs (docSpecs upper envelope) =
-      if envelope then ["ws", "meta-content", "meta-field", "ws", "ws", "envelope-start", "ws", "meta-block", "ws", "content", "ws",
-        "envelope-end"].map String.toList
-      else ["content".toList] := by
-  unfold docSpecs LineSpec.refs
-  split <;> simp [blankSpec]
-
-/-- **C12 (partial).**  For every schema name, every list of fields (any names, any chains of the 13
-constraint kinds plus unknown ones) and **both envelope settings**, `compile_schema` returns a text, and
-that text is well-formed GBNF under the lenient rule-name alphabet (`_` allowed) — it parses, defines
-`root`, defines every rule it references, defines no rule twice, has no unterminated literal or class and
-no empty alternative — provided the input lies outside the recorded finding classes:
-F20 (a field named like a structural rule), F21 (two fields with the same sanitised name), F22 (a REGEX
-pattern that is pasted rather than translated), C12N1 (quote/backslash in a field name), C12N2 (line
-break / quote / backslash in the schema name).  `SchemaOK` says only what the reader guarantees (an ENUM
-has a member).
-
-*Partial*: the five hypotheses are genuine defects of the code (negative theorems below); under the strict
-llama.cpp alphabet `[a-zA-Z0-9-]` the statement is false whenever a rule name contains `_` (F23). -/
-theorem C12_wellformed_partial (name upper : Str) (fields : List Field) (envelope : Bool)
-    (hok : SchemaOK fields = true)
-    (h20 : KF_structural fields = false) (h21 : ¬ KF_collision fields) (h22 : KF_regexPaste fields = false)
-    (hN1 : KF_fieldNameUnescaped fields = false) (hN2 : KF_schemaNameUnescaped name upper envelope = false) :
-    ∃ text, compileSchema name upper fields envelope = some text ∧ WellFormed true text := by
-  obtain ⟨xsF, hfl, hallF, hnamesF, hrefsF⟩ := fieldLines_ok fields hok h22 hN1
-  refine ⟨_, compileSchema_lines name upper fields envelope xsF hfl, ?_⟩
-  simp only [KF_schemaNameUnescaped, Bool.or_eq_false_iff] at hN2
-  have hF : LineSpec.names xsF = fields.map Field.ruleName := hnamesF
-  have hw : ∀ r ∈ fields.map Field.ruleName, r ≠ [] ∧ ∀ c ∈ r, isWordChar true c = true := by
-    intro r hr
-    obtain ⟨f, _, hfr⟩ := List.mem_map.mp hr
-    subst hfr
-    exact ⟨sanitize_nonempty f.lowered, fun c hc => (sanitize_charset f.lowered c hc).1⟩
-  have hns := ruleName_not_structural fields h20
-  have hnd : (fields.map Field.ruleName).Nodup := Classical.not_not.mp h21
-  apply assemble name (by rw [hN2.1.1, hN2.1.2]; rfl) xsF (contentSpecs (fields.map Field.ruleName)) (docSpecs upper envelope)
-    hallF (contentSpecs_ok _ hw) (docSpecs_ok upper envelope hN2.2)
-  · -- no rule is defined twice
-    rw [hF, names_contentSpecs, names_docSpecs]
-    apply nodup_insert_middle _ _ _ hnd
-    · cases envelope <;> cases (fields.map Field.ruleName).isEmpty <;> decide
-    · intro x hx hmem
-      refine hns x hx ?_
-      have hsub : ∀ (b1 b2 : Bool), ∀ y ∈ ["ws".toList] ++ ((if b1 then ["content".toList] else ["field".toList, "content".toList]) ++
-          (if b2 then ["envelope-start", "envelope-end", "meta-block", "meta-content", "meta-field", "document"].map String.toList
-            else ["document".toList]) ++ ["root".toList]), y ∈ allStructural := by decide
-      exact hsub _ _ x hmem
-  · exact hrefsF
-  · -- references of the field / content rules
-    intro r hr
-    rw [refs_contentSpecs] at hr
-    rw [hF, names_contentSpecs]
-    split at hr
-    · simp at hr
-    · rename_i hne
-      simp only [hne, Bool.false_eq_true, if_false]
-      simp only [List.mem_append, List.mem_cons, List.not_mem_nil, or_false] at hr ⊢
-      rcases hr with h | h | h
-      · left; right; exact h
-      · right; left; exact h
-      · left; left; exact h
-  · -- references of the document rules
-    intro r hr
-    rw [refs_docSpecs] at hr
-    rw [names_contentSpecs, names_docSpecs]
-    cases envelope <;> cases (fields.map Field.ruleName).isEmpty <;> revert r <;> decide
-  · rw [names_docSpecs]; cases envelope <;> decide
-
-/-! ## the executable verdict used by the driver is the specification -/
-
-theorem dupsOf_isEmpty_iff : ∀ (l : List Str), (dupsOf l).isEmpty = true ↔ l.Nodup := by
-  intro l
-  induction l with
-  | nil => simp [dupsOf]
-  | cons n r ih =>
-    simp only [dupsOf, List.nodup_cons]
-    by_cases h : r.contains n = true
-    · simp only [h, if_true, List.isEmpty_cons, Bool.false_eq_true, false_iff, not_and]
-      intro hn; exact absurd (by simpa [List.contains_iff_mem] using h) hn
-    · simp only [h, Bool.false_eq_true, if_false, ih]
-      constructor
-      · intro hr; exact ⟨by simpa [List.contains_iff_mem] using h, hr⟩
-      · intro hr; exact hr.2
-
-theorem wellFormedB_iff (len : Bool) (text : Str) : wellFormedB len text = true ↔ WellFormed len text := by
-  unfold wellFormedB WellFormed
-  cases hp : parse len text with
-  | none => simp
-  | some g =>
-    simp only [Grammar.wellFormedB, Bool.and_eq_true, List.all_eq_true, Option.some.injEq, exists_eq_left']
-    rw [dupsOf_isEmpty_iff]
-    simp [List.contains_iff_mem, and_assoc]
-
-/-! ## totality -/
-
-theorem compileConstraint_total (c : Constraint) : ∃ frag, compileConstraint c = some frag := by
-  cases c <;> simp [compileConstraint, gen_dispatch, lookupMethod, Constraint.kind, runMethod]
-
-/-- **C12_compile_total.**  `compile_schema` returns a text for every schema (no constraint object makes
-a `_compile_*` method raise: the dispatch sends each class to the method that reads its own attributes). -/
-theorem C12_compile_total (name upper : Str) (fields : List Field) (envelope : Bool) :
-    ∃ text, compileSchema name upper fields envelope = some text := by
-  have hfl : ∃ ls, fieldLines fields = some ls := by
-    induction fields with
-    | nil => exact ⟨[], rfl⟩
-    | cons f r ih =>
-      obtain ⟨ls, hls⟩ := ih
-      have hp : ∃ pat, fieldPattern f = some pat := by
-        unfold fieldPattern
-        cases f.chain with
-        | none => exact ⟨_, rfl⟩
-        | some cs =>
-          simp only
-          unfold compileChain
-          cases deciding cs with
-          | none => exact ⟨_, rfl⟩
-          | some c => exact compileConstraint_total c
-      obtain ⟨pat, hpat⟩ := hp
-      exact ⟨render Gen.schemaFieldRuleTpl [f.ruleName, f.name, pat] :: ls, by simp [fieldLines, fieldLine, hpat, hls]⟩
-  obtain ⟨ls, hls⟩ := hfl
-  simp [compileSchema, schemaLines, hls]
-
-/-! ## the META.CONTRACT route -/
-
-/-- **C12_contract_route.**  `compile_gbnf_from_meta` (CONTRACT given as the parser's token list) is
-`compile_schema` with envelope of the schema whose fields are rebuilt from the tokens
-(`_reconstruct_field_specs_from_tokens`, `parse_contract_field`, dict insertion) — so
-`C12_wellformed_partial` applies to it verbatim. -/
-theorem C12_contract_route (env : Env) (type upper : Str) (toks : List CTok) (fs : List Field)
-    (h : contractFields env (reconstruct toks) [] = some fs) :
-    compileMetaTokens env type upper toks = some (compileSchema type upper fs true) := by
-  simp [compileMetaTokens, compileMeta, h]
-
-theorem C12_contract_wellformed_partial (env : Env) (type upper : Str) (toks : List CTok) (fs : List Field)
-    (h : contractFields env (reconstruct toks) [] = some fs)
-    (hok : SchemaOK fs = true) (h20 : KF_structural fs = false) (h21 : ¬ KF_collision fs)
-    (h22 : KF_regexPaste fs = false) (hN1 : KF_fieldNameUnescaped fs = false)
-    (hN2 : KF_schemaNameUnescaped type upper true = false) :
-    ∃ text, compileMetaTokens env type upper toks = some (some text) ∧ WellFormed true text := by
-  obtain ⟨text, ht, hwf⟩ := C12_wellformed_partial type upper fs true hok h20 h21 h22 hN1 hN2
-  exact ⟨text, by rw [C12_contract_route env type upper toks fs h, ht], hwf⟩
-
-/-- the fields dict never holds a name twice: collisions (F21) are between *different* field names -/
-theorem dictSet_names_nodup (f : Field) : ∀ (l : List Field), (l.map (·.name)).Nodup → ((dictSet f l).map (·.name)).Nodup := by
-  intro l
-  induction l with
-  | nil => intro _; simp [dictSet]
-  | cons g r ih =>
-    intro h
-    simp only [dictSet]
-    split
-    · rename_i heq
-      have : g.name = f.name := by simpa using heq
-      simpa [this] using h
-    · rename_i hne
-      have hne' : g.name ≠ f.name := by simpa using hne
-      simp only [List.map_cons, List.nodup_cons] at h ⊢
-      refine ⟨?_, ih h.2⟩
-      intro hmem
-      obtain ⟨x, hx, hxn⟩ := List.mem_map.mp hmem
-      have : ∀ (l : List Field) (x : Field), x ∈ dictSet f l → x = f ∨ x ∈ l := by
-        intro l
-        induction l with
-        | nil => intro x hx; simp [dictSet] at hx; exact Or.inl hx
-        | cons a t iht =>
-          intro x hx
-          simp only [dictSet] at hx
-          split at hx
-          · rcases List.mem_cons.mp hx with h1 | h1
-            · exact Or.inl h1
-            · exact Or.inr (by simp [h1])
-          · rcases List.mem_cons.mp hx with h1 | h1
-            · exact Or.inr (by simp [h1])
-            · rcases iht x h1 with h2 | h2
-              · exact Or.inl h2
-              · exact Or.inr (by simp [h2])
-      rcases this r x hx with h1 | h1
-      · subst h1; exact hne' hxn.symm
-      · exact h.1 (List.mem_map.mpr ⟨x, h1, hxn⟩)
-
-/-! ## non-vacuity: a schema that meets every hypothesis -/
-
-def exampleFields : List Field :=
-  [⟨"STATUS".toList, "status".toList, some [.req, .enum ["ACTIVE".toList, "PAUSED".toList]]⟩,
-   ⟨"A.B".toList, "a.b".toList, some [.opt, .regex "^[a-z]+$".toList]⟩,
-   ⟨"naïve".toList, "naïve".toList, some [.const "a\"b\\c".toList]⟩,
-   ⟨"WHEN".toList, "when".toList, some [.iso8601]⟩, ⟨"N".toList, "n".toList, some [.type "NUMBER".toList]⟩,
-   ⟨"X".toList, "x".toList, none⟩]
-
-example : SchemaOK exampleFields = true ∧ KF_structural exampleFields = false ∧ ¬ KF_collision exampleFields ∧
-    KF_regexPaste exampleFields = false ∧ KF_fieldNameUnescaped exampleFields = false ∧
-    KF_schemaNameUnescaped "Session Log".toList "SESSION LOG".toList true = false := by
-  refine ⟨by decide, by decide, ?_, by decide, by decide, by decide⟩
-  unfold KF_collision; decide
-example : (compileSchema "Session Log".toList "SESSION LOG".toList exampleFields true).map (wellFormedB true) = some true := by
-  decide +kernel
-example : (compileSchema "S".toList "S".toList [] false).map (wellFormedB true) = some true := by decide +kernel
-
-/-! ## negative theorems: the finding classes are genuine (witnesses replayed on the real code by the check) -/
-
-def illFormed (len : Bool) (o : Option Str) : Prop := ∃ text, o = some text ∧ ¬ WellFormed len text
-
-theorem illFormed_of_B {len : Bool} {o : Option Str} (h : o.map (wellFormedB len) = some false) : illFormed len o := by
-  cases o with
-  | none => simp at h
-  | some t =>
-    refine ⟨t, rfl, ?_⟩
-    rw [← wellFormedB_iff]
-    simpa using h
-
-/-- **F20**: a field called CONTENT defines the rule `content` twice. -/
-theorem F20_structural_name_witness :
-    KF_structural [⟨"CONTENT".toList, "content".toList, some [.req]⟩] = true ∧
-    illFormed true (compileSchema "S".toList "S".toList [⟨"CONTENT".toList, "content".toList, some [.req]⟩] false) :=
-  ⟨by decide, illFormed_of_B (by decide +kernel)⟩
-
-/-- **F21**: `A.B` and `A_DOT_B` are both sanitised to `a_dot_b`, which is then defined twice. -/
-theorem F21_collision_witness :
-    KF_collision [⟨"A.B".toList, "a.b".toList, some [.req]⟩, ⟨"A_DOT_B".toList, "a_dot_b".toList, some [.opt]⟩] ∧
-    illFormed true (compileSchema "S".toList "S".toList
-      [⟨"A.B".toList, "a.b".toList, some [.req]⟩, ⟨"A_DOT_B".toList, "a_dot_b".toList, some [.opt]⟩] false) :=
-  ⟨by unfold KF_collision; decide, illFormed_of_B (by decide +kernel)⟩
-
-/-- **F22**: `REGEX["^abc$"]` is pasted as `abc`, a reference to a rule that is not defined. -/
-theorem F22_regex_paste_witness :
-    KF_regexPaste [⟨"P".toList, "p".toList, some [.regex "^abc$".toList]⟩] = true ∧
-    illFormed true (compileSchema "S".toList "S".toList [⟨"P".toList, "p".toList, some [.regex "^abc$".toList]⟩] false) :=
-  ⟨by decide, illFormed_of_B (by decide +kernel)⟩
-
-/-- **F23**: under llama.cpp's own name alphabet `[a-zA-Z0-9-]` the grammar of a schema with a field
-`OPTIONAL_FIELD` (rule `optional_field`) does not parse, although it is well-formed when `_` is admitted. -/
-theorem F23_strict_alphabet_witness :
-    illFormed false (compileSchema "S".toList "S".toList [⟨"OPTIONAL_FIELD".toList, "optional_field".toList, some [.opt]⟩] false) ∧
-    (compileSchema "S".toList "S".toList [⟨"OPTIONAL_FIELD".toList, "optional_field".toList, some [.opt]⟩] false).map (wellFormedB true) = some true :=
-  ⟨illFormed_of_B (by decide +kernel), by decide +kernel⟩
-
-/-- **C12N1**: a field name containing a backslash is pasted unescaped into the rule's literal. -/
-theorem C12N1_field_name_witness :
-    KF_fieldNameUnescaped [⟨"\"a\\b\"".toList, "\"a\\b\"".toList, some [.req]⟩] = true ∧
-    illFormed true (compileSchema "S".toList "S".toList [⟨"\"a\\b\"".toList, "\"a\\b\"".toList, some [.req]⟩] true) :=
-  ⟨by decide, illFormed_of_B (by decide +kernel)⟩
-
-/-- **C12N2**: a schema name with a quote breaks the `envelope-start` literal; one with a line break ends
-the header comment. -/
-theorem C12N2_schema_name_witness :
-    KF_schemaNameUnescaped "a\"b".toList "A\"B".toList true = true ∧
-    illFormed true (compileSchema "a\"b".toList "A\"B".toList [⟨"STATUS".toList, "status".toList, some [.req]⟩] true) ∧
-    KF_schemaNameUnescaped "a\nb".toList "A\nB".toList false = true ∧
-    illFormed true (compileSchema "a\nb".toList "A\nB".toList [⟨"STATUS".toList, "status".toList, some [.req]⟩] false) :=
-  ⟨by decide, illFormed_of_B (by decide +kernel), by decide, illFormed_of_B (by decide +kernel)⟩
 
 end Octave.C12
